@@ -226,6 +226,20 @@ class StencilRunner(object):
         results.sort(key=lambda t: -len(t[1].calls))
         primary = results[0][1]
         primary.alternatives = results[1:]
+        # a user function may also *raise* instead of returning NaN (math.log, math.sqrt): where the difference function
+        # catches that and carries on, the evaluations it then makes are one more outcome to judge
+        from .ndarr import InterpRaise
+        for k in range(len(primary.calls)):
+            self._raise_at = k
+            try:
+                res = self._run_once(fn, dim, x, h, xs, hsyms, xatoms)
+            except InterpRaise:
+                continue            # the exception reaches the caller: nothing is returned, nothing to judge
+            except AnalysisError:
+                continue
+            finally:
+                self._raise_at = None
+            primary.alternatives.append(('f raises ValueError at its evaluation no. %d and the difference function catches it' % (k + 1), res))
         return primary
 
     def _run_once(self, fn, dim, x, h, xs, hsyms, xatoms):
@@ -242,6 +256,9 @@ class StencilRunner(object):
                 off = self._offset(z1, xs, dim, xatoms, z2)
                 key = tuple(off)
                 calls.append((key, where, 'bicomplex'))
+                if getattr(self, '_raise_at', None) is not None and len(calls) - 1 == self._raise_at:
+                    from .ndarr import InterpRaise
+                    raise InterpRaise('math domain error', 'ValueError')
                 o = Obj(bic)
                 o.attrs['z1'] = FV.atom(key, 'A')
                 o.attrs['z2'] = FV.atom(key, 'B')
@@ -249,6 +266,9 @@ class StencilRunner(object):
             off = self._offset(arg, xs, dim, xatoms, None)
             key = tuple(off)
             calls.append((key, where, 'plain'))
+            if getattr(self, '_raise_at', None) is not None and len(calls) - 1 == self._raise_at:
+                from .ndarr import InterpRaise
+                raise InterpRaise('math domain error', 'ValueError')      # the point was evaluated; f has no value there
             return FV.atom(key, 'A')
 
         f_x = FV.atom(FX_KEY, 'A')
